@@ -53,6 +53,10 @@ PLAN = {
  "C20": dict(machines=["events"], profile=EVENTS, ninst=3, san_machines=["events"], valgrind=True,
              mc=dict(maxcalls=3, budget=1, percall=False, apis=("start", "pe", "enq", "drain1"), dirops=("pe",), direvs=("E2", "E6")), invariants=["P_C04"], trace_invariants=[],
              title="stored events"),
+ "C16": dict(machines=["copyser", "histA", "histS"], configs=["back", "back_fct", "back11"], ninst=3,
+             profile=dict(PLAIN, subs=0.1, restart=0.03, saveload=0.25, copy=0.05, ninst=3, maxcalls=9),
+             mc=dict(maxcalls=4, budget=0, apis=("start", "pe", "saveload"), dirops=(), direvs=(), ninst=2), invariants=["P_C16", "P_C03"],
+             trace_invariants=["P_C16"], title="serialization round trip"),
  "C17": dict(machines=["ortho", "hier3", "block"], profile=dict(PLAIN, restart=0.05), mc=MC_PLAIN, invariants=["P_C17"],
              title="flags"),
  "C18": dict(machines=["kleene"], profile=dict(PLAIN, subs=0.2, enq=0.1, drain=0.1), mc=MC_PLAIN5, invariants=["P_C01", "P_C18"],
